@@ -132,6 +132,9 @@ type JSONOpts struct {
 	WS       bool // inter-token whitespace
 	MaxDepth int
 	Nulls    bool
+	// EmptyTop: one document in ten is the empty object {} (skipped by the bulk
+	// handlers and file readers: known findings C13/C19-empty-object-skipped)
+	EmptyTop bool
 	// SingleKey: every object has at most one key, so that encoders which walk
 	// maps in hash order (encoding/gob) produce the same bytes on every run.
 	SingleKey bool
@@ -162,6 +165,12 @@ func genJSONDoc(t *Tape, o JSONOpts) string {
 	var b strings.Builder
 	if o.MaxDepth == 0 {
 		o.MaxDepth = 3
+	}
+	if o.EmptyTop && t.Draw(10) == 9 {
+		if o.WS && t.Draw(2) == 1 {
+			return "{ }"
+		}
+		return "{}"
 	}
 	genJSONObj(t, &b, o, 0, true)
 	return b.String()
